@@ -3,14 +3,10 @@ package c12
 import (
 	"fmt"
 	"reflect"
-	"sort"
-	"strings"
 	"testing"
-	"time"
 
 	yaml "gopkg.in/yaml.v3"
 
-	"go.opentelemetry.io/collector/confmap"
 	"go.opentelemetry.io/collector/verifharness/vt"
 )
 
